@@ -58,16 +58,54 @@ def mk_cfg(cfg, xdma=False):
     return StreamerConfiguration(sts, StreamerSystemType.DmaExt if xdma else StreamerSystemType.Regular)
 
 
-def mk_operands(zero):
-    from xdsl.dialects import arith, test
+def mk_operands(zero, src=None):
+    """Pointer operands of the region -> (SSA values, ops/blocks kept alive).
+
+    `src[i]` says where pointer i comes from: "zero" (`arith.constant 0 : index`, the zero pointer), "res" (result of
+    an opaque op), "const" (`arith.constant 64 : index`: a constant op result that is NOT the zero pointer), "arg"
+    (function argument) or "iter" (loop-carried block argument of an enclosing scf.for). Block arguments are not
+    `OpResult`s, which is what the zero-pointer test of the generators looks at first."""
+    from xdsl.dialects import arith, scf, test
     from xdsl.dialects.builtin import IndexType
-    ops = []
-    for z in zero:
-        if z:
-            ops.append(arith.ConstantOp.from_int_and_width(0, IndexType()))
+    from xdsl.ir import Block, Region
+    idx = IndexType()
+    if src is None:
+        src = ["zero" if z else "res" for z in zero]
+    n_arg = sum(1 for x in src if x == "arg")
+    n_iter = sum(1 for x in src if x == "iter")
+    fblock = Block(arg_types=[idx] * n_arg)
+    keep = [fblock]
+    inner = fblock
+    iter_args = []
+    if n_iter:
+        lb, ub, st = (arith.ConstantOp.from_int_and_width(v, idx) for v in (0, 4, 1))
+        inits = [test.TestOp(result_types=[idx]) for _ in range(n_iter)]
+        body = Block(arg_types=[idx] * (1 + n_iter))
+        loop = scf.ForOp(lb, ub, st, [i.res[0] for i in inits], Region(body))
+        fblock.add_ops([lb, ub, st, *inits, loop])
+        iter_args = list(body.args[1:])
+        inner = body
+        keep.append(loop)
+    vals, ops = [], []
+    ai = ii = 0
+    for x in src:
+        if x == "arg":
+            vals.append(fblock.args[ai])
+            ai += 1
+        elif x == "iter":
+            vals.append(iter_args[ii])
+            ii += 1
         else:
-            ops.append(test.TestOp(result_types=[IndexType()]))
-    return ops
+            if x == "zero":
+                o = arith.ConstantOp.from_int_and_width(0, idx)
+            elif x == "const":
+                o = arith.ConstantOp.from_int_and_width(64, idx)
+            else:
+                o = test.TestOp(result_types=[idx])
+            ops.append(o)
+            vals.append(o.results[0])
+    inner.add_ops(ops)
+    return vals, (keep, ops, inner)
 
 
 def mk_patterns(pats):
@@ -97,8 +135,8 @@ def build_region(case, acc_name):
     from xdsl.dialects import test
     from xdsl.dialects.builtin import i8, i32, i64
     from xdsl.ir import Block, Region
-    opnds = mk_operands(case["op"]["zero"])
-    nop = len(opnds)
+    vals, opnds = mk_operands(case["op"]["zero"], case["op"].get("src"))
+    nop = len(vals)
     kind = case["kind"]
     outer = Block(arg_types=[dart.StreamType(i8)] * nop)
     body_ops = []
@@ -171,8 +209,8 @@ def build_region(case, acc_name):
                            lambda a: kernel.MulOp(operands=[a[0], a[1]], result_types=[i64]), i64)
             body_ops = [g, dart.YieldOp(g)]
     outer.add_ops(body_ops)
-    vals = [o.results[0] for o in opnds]
     op = snax_stream.StreamingRegionOp(vals[:-1], vals[-1:], mk_patterns(case["op"]["pats"]), acc_name, Region(outer))
+    opnds[2].add_ops([*zps, op])        # the region sits where its pointers are visible (function or loop body)
     return op, opnds, first_generic, zps
 
 
@@ -480,10 +518,13 @@ def gen_pattern(rng, mk, st, tier_malformed=False):
 def gen_streamop(rng, cfg, malformed=False):
     mk = Markers(rng)
     pats = [gen_pattern(rng, mk, st, malformed) for st in cfg]
-    zero = [rng.random() < 0.2 for _ in cfg]
+    # pointer sources: zero constants in any position, op results, non-zero constants, function arguments and
+    # loop-carried values (block arguments)
+    src = [rng.choices(["zero", "res", "arg", "iter", "const"], [22, 30, 25, 15, 8])[0] for _ in cfg]
+    zero = [x == "zero" for x in src]
     if malformed and rng.random() < 0.15 and len(pats) > 1:
         pats = pats[:-1]
-    return {"pats": pats, "zero": zero}
+    return {"pats": pats, "zero": zero, "src": src}
 
 
 def gen_rescale(rng, n, short_ok=False):
@@ -591,6 +632,31 @@ def gen_xdma(rng, malformed=False, notgeneric=False):
     return {"kind": "xdma", "cfg": cfg, "op": op, "kernel": kernel}
 
 
+def pointer_sources(rng):
+    """zero pointers in every position (first, middle, last) x where the other pointers come from (op result, function
+    argument, loop-carried value), for the regular streamer (alu with channel masks, gemmx default) and xDMA"""
+    import itertools
+    srcs = ("zero", "res", "arg", "iter")
+    for combo in itertools.product(srcs, repeat=3):
+        cfg = [{"t": ["n"], "s": [4], "o": ["c"]}, {"t": ["n"], "s": [4], "o": ["a", "c"]}, {"t": ["n"], "s": [4], "o": ["c", "b"]}]
+        op = gen_streamop(rng, cfg)
+        op["src"], op["zero"] = list(combo), [x == "zero" for x in combo]
+        yield {"kind": "alu", "cfg": cfg, "op": op}
+    for combo in itertools.product(srcs, repeat=2):
+        cfg = [dict(s) for s in XDMA_DEFAULT]
+        op = gen_streamop(rng, cfg)
+        op["src"], op["zero"] = list(combo), [x == "zero" for x in combo]
+        yield {"kind": "xdma", "cfg": cfg, "op": op, "kernel": ["add"]}
+    for combo in (("res", "res", "res", "zero", "arg"), ("arg", "arg", "arg", "zero", "arg"), ("zero", "iter", "res", "zero", "iter"),
+                  ("zero", "zero", "arg", "arg", "iter"), ("iter", "zero", "arg", "zero", "arg")):
+        cfg = [dict(s) for s in GEMMX_DEFAULT]
+        op = gen_streamop(rng, cfg)
+        op["src"], op["zero"] = list(combo), [x == "zero" for x in combo]
+        op["pats"][4] = {"ub": op["pats"][0]["ub"][:2], "ts": [4104, 0][:len(op["pats"][0]["ub"][:2])], "ss": op["pats"][4]["ss"]}
+        yield {"kind": "gemmx", "cfg": cfg, "n": 8, "m": 8, "k": 8, "op": op, "kernel": ["mac", None], "i8out": False,
+               "post": None, "nin": 2, "mid": 0}
+
+
 def gemmx_shapes(rng):
     """(q)mac, (q)mac->rescale, (q)mac->add, (q)mac->add->rescale, (q)mac->add->add->rescale on the default geometry"""
     # every supported gemmx region shape x output type x per-tensor / per-channel rescale on the default geometry
@@ -654,12 +720,14 @@ class C08(Prop):
     ]
     rule = ("structured random configurations (1..6 temporal dims with n/i/r flags, 1..2 spatial dims, random option / "
             "extension subsets in random order, gemmx n in {4,8,12,16}, mac/qmac/rescale/post-rescale bodies, zero pointers) "
-            "with marker stride patterns; non-trivial = values were produced and some pattern is shorter than the "
+            "with marker stride patterns; pointer operands are a mix of op results, non-zero constants, function arguments, "
+            "loop-carried values and zero constants in every position (enumerated for 3-streamer alu, xDMA, gemmx); non-trivial = values were produced and some pattern is shorter than the "
             "streamer (padding) or a reuse dimension collapses or a zero pointer/packed field is present")
 
     def cases(self, rng, tier):
         n = 900 if tier == "quick" else 8000
         yield {"kind": "hwpe"}
+        yield from pointer_sources(rng)
         if tier != "thorough":
             yield from gemmx_shapes(rng)
         if tier == "thorough":
@@ -820,7 +888,8 @@ class C08(Prop):
             for i in range(len(cfg)):
                 if i < len(op["pats"]):
                     yield dict(case, cfg=cfg[:i] + cfg[i + 1:],
-                               op={"pats": op["pats"][:i] + op["pats"][i + 1:], "zero": op["zero"][:i] + op["zero"][i + 1:]})
+                               op=dict({"pats": op["pats"][:i] + op["pats"][i + 1:], "zero": op["zero"][:i] + op["zero"][i + 1:]},
+                                       **({"src": op["src"][:i] + op["src"][i + 1:]} if "src" in op else {})))
         for i, s in enumerate(cfg):
             for j in range(len(s["o"])):
                 yield dict(case, cfg=cfg[:i] + [dict(s, o=s["o"][:j] + s["o"][j + 1:])] + cfg[i + 1:])
@@ -830,7 +899,10 @@ class C08(Prop):
                 yield dict(case, cfg=cfg[:i] + [dict(s, t=s["t"][:nt])] + cfg[i + 1:],
                            op=dict(op, pats=op["pats"][:i] + [dict(p, ub=p["ub"][:nt], ts=p["ts"][:nt])] + op["pats"][i + 1:]))
         if any(op["zero"]):
-            yield dict(case, op=dict(op, zero=[False] * len(op["zero"])))
+            yield dict(case, op=dict({k: v for k, v in op.items() if k != "src"}, zero=[False] * len(op["zero"])))
+        if "src" in op and any(x not in ("zero", "res") for x in op["src"]):
+            # every non-zero pointer an op result
+            yield dict(case, op=dict(op, src=["zero" if z else "res" for z in op["zero"]]))
         if case.get("post") is not None:
             yield dict(case, post=None)
         if case.get("mid"):
